@@ -500,14 +500,14 @@ def shard(member, acc):
     kind = member[0]
     tier = member[-1]
     depth = 2 if tier == "quick" else 3
-    red = 0 if tier == "quick" else 4
+    red = 0 if tier == "quick" else 3
     if kind == "corpus":
         _, name, S, root, cdepth, lean = member[:6]
         xml = M.render(S)
         sch = H.load_schema(xml)
         mid = {"name": name, "schema": xml}
         na = nr = 0
-        cap = 12 if tier == "quick" else 20
+        cap = 12
         for events, d in C.nodes(S, root, cdepth, lean):
             if d.verdict == "U" or len(events) < (3 if lean else 2):
                 continue
